@@ -645,3 +645,147 @@ func init() {
 	Register("fec-enum", true, scenFecEnum)
 	Register("fec-stream", true, scenFecStream)
 }
+
+// ---------------------------------------------------------------------------
+// scenario "fec-fuzz" (C05): arbitrary and structure-mutated packets fed
+// straight to the FEC decoder, interleaved with a genuine stream
+// ---------------------------------------------------------------------------
+
+func scenFecFuzz(r *Run) {
+	s := r.S
+	s.PanicProp = "C05"
+	t := s.Tape
+	const cs, fz = "cfg", "fuzz"
+	pool := NewPoolSan()
+	kcp.VerifPoolGet, kcp.VerifPoolPut = pool.Get, pool.Put
+	d, p := drawDP(t, cs, t.Chance(cs, 500))
+	n := uint32(d + p)
+	paws := uint32(0xffffffff) / n * n
+	var start uint32
+	switch t.Choose(cs, 3) {
+	case 1:
+		start = paws - n*uint32(1+t.Choose(cs, 4))
+	case 2:
+		start = n * (uint32(0x80000000)/n - uint32(t.Choose(cs, 3)))
+	}
+	fs := newFecSender(d, p, start, s.Tape.Seed^0xf22)
+	dec := kcp.VerifNewFECDecoder(d, p)
+	nPackets := 50 + t.Skewed(cs, 0, 3000)
+	r.Res.Config = fmt.Sprintf("decoder=%d/%d start=%d packets=%d", d, p, start, nPackets)
+	s.L.Logf("config %s", r.Res.Config)
+	var genuine []fecPkt
+	maxHeld, maxSets := 0, 0
+	for i := 0; i < nPackets && s.Viol == nil; i++ {
+		if len(genuine) == 0 || t.Chance(fz, 400) {
+			time.Sleep(time.Duration(1+t.Choose(fz, 30)) * time.Millisecond)
+			genuine = append(genuine, fs.send(1+t.Choose(fz, 1400))...)
+			if len(genuine) > 64 {
+				genuine = genuine[len(genuine)-64:]
+			}
+		}
+		var pkt []byte
+		kind := t.Choose(fz, 10)
+		g := genuine[t.Choose(fz, len(genuine))]
+		switch kind {
+		case 0, 1:
+			pkt = append([]byte(nil), g.raw...) // genuine (possibly a duplicate or late)
+		case 2:
+			// pure noise, at least the 8 bytes the session layer guarantees
+			pkt = make([]byte, 8+t.Skewed(fz, 0, 1492))
+			x := splitmixFrom(t, fz)
+			for j := range pkt {
+				pkt[j] = byte(splitmix(&x))
+			}
+		case 3:
+			// type flipped
+			pkt = append([]byte(nil), g.raw...)
+			binary.LittleEndian.PutUint16(pkt[4:], uint16(Pick(t, fz, []int{0xf1, 0xf2, 0xf3, 0, 0xffff, 0x51})))
+		case 4:
+			// seqid forged: extremes, the wrap value and beyond, other groups
+			pkt = append([]byte(nil), g.raw...)
+			binary.LittleEndian.PutUint32(pkt, forgeU32(t, fz, g.id, 3*int(n)))
+			if t.Chance(fz, 300) {
+				binary.LittleEndian.PutUint32(pkt, paws+uint32(t.Choose(fz, 4))-2)
+			}
+		case 5:
+			// size field lies
+			pkt = append([]byte(nil), g.raw...)
+			binary.LittleEndian.PutUint16(pkt[6:], uint16(Pick(t, fz, []int{0, 1, 2, 3, 65535, len(pkt), len(pkt) + 1, 1500})))
+		case 6:
+			// truncated / extended
+			pkt = append([]byte(nil), g.raw...)
+			if t.Chance(fz, 500) {
+				pkt = pkt[:8+t.Choose(fz, len(pkt)-7)]
+			} else {
+				pkt = append(pkt, make([]byte, t.Choose(fz, 1500-len(pkt)+1))...)
+			}
+		case 7:
+			// parity for a group that was never sent
+			pkt = make([]byte, 8+t.Choose(fz, 1400))
+			binary.LittleEndian.PutUint32(pkt, (g.id/n+uint32(1+t.Choose(fz, 5)))*n+uint32(d+t.Choose(fz, p)))
+			binary.LittleEndian.PutUint16(pkt[4:], 0xf2)
+		case 8:
+			// a run that drives the auto-tuner: contiguous ids with a forged period
+			dd, pp := 1+t.Choose(fz, 40), 1+t.Choose(fz, 40)
+			base := g.id
+			for k := 0; k < 2*(dd+pp)+3 && k < 300; k++ {
+				q := make([]byte, 8+10)
+				binary.LittleEndian.PutUint32(q, base+uint32(k))
+				ty := uint16(0xf1)
+				if k%(dd+pp) >= dd {
+					ty = 0xf2
+				}
+				binary.LittleEndian.PutUint16(q[4:], ty)
+				binary.LittleEndian.PutUint16(q[6:], 12)
+				for _, rr := range dec.Decode(q) {
+					kcp.VerifPoolRecycle(rr)
+				}
+			}
+			s.Stats.Fault("forged-period-run")
+			continue
+		default:
+			// exactly 8 bytes: header and size field only
+			pkt = append([]byte(nil), g.raw[:8]...)
+		}
+		if len(pkt) > 1500 {
+			pkt = pkt[:1500]
+		}
+		s.Stats.Fault(fmt.Sprintf("fec-fuzz-kind-%d", kind))
+		recs := dec.Decode(pkt)
+		for _, rr := range recs {
+			kcp.VerifPoolRecycle(rr)
+		}
+		if len(recs) > 0 {
+			s.Stats.Probe("decoder-returned-something")
+		}
+		fi := dec.Info()
+		if fi.ShardSets > maxSets {
+			maxSets = fi.ShardSets
+		}
+		if fi.Held > maxHeld {
+			maxHeld = fi.Held
+		}
+		// bounded holdings whatever arrives: a few shard sets of at most one group each
+		if fi.ShardSets > 16 {
+			s.Fail("C05", "bloat", "fec-shard-sets", "after %d packets the decoder holds %d shard sets", i+1, fi.ShardSets)
+		}
+		if fi.Held > 16*256 {
+			s.Fail("C05", "bloat", "fec-shards-held", "after %d packets the decoder holds %d packets", i+1, fi.Held)
+		}
+		if out := pool.Outstanding(); out > fi.Held+64 {
+			s.Fail("C05", "bloat", "pooled-buffers-held", "after %d packets %d pooled buffers are outstanding, the decoder accounts for %d", i+1, out, fi.Held)
+		}
+	}
+	s.Stats.ProbeN("max-shard-sets", maxSets)
+	s.Stats.ProbeN("max-packets-held", maxHeld)
+	if pv := pool.Check(true); pv != nil {
+		s.Fail(pv.Prop, pv.Oracle, pv.Sig[len("C15/pool/"):], "%s", pv.Detail)
+	}
+	r.Res.Progress = true
+	r.Res.Completed = s.Viol == nil
+	r.Res.VirtualMs = int64(s.Now() / time.Millisecond)
+}
+
+func init() {
+	Register("fec-fuzz", true, scenFecFuzz)
+}
